@@ -441,6 +441,40 @@ func c16(r *Report, s *Sem) {
 		r.Undecided(R1, "anchor-unresolved:tcpTransport.limitedReader/ReadLimit/Receive", "-", "not found")
 		return
 	}
+	// ---- R5
+	R5 := r.Rule("R5", "the transport is never copied: the decoder holds the address of the limited reader inside the transport it was bound to, so a transport value that is loaded, stored, passed or returned as a whole leaves Receive re-arming a budget the decoder does not read (the limit would then count per connection, not per envelope)", 1)
+	tt := p.Type("tcpTransport")
+	copies := 0
+	if tt != nil {
+		isT := func(t types.Type) bool { return types.Identical(t, tt) }
+		for _, fn := range p.LimeFuncs() {
+			for _, prm := range fn.Params {
+				if isT(prm.Type()) {
+					copies++
+					r.Check(R5, "func "+fnName(fn)+" / parameter "+prm.Name()+" by value", p.pos(fn.Pos()), false, "a transport passed by value is a copy")
+				}
+			}
+			if res := fn.Signature.Results(); res != nil {
+				for i := 0; i < res.Len(); i++ {
+					if isT(res.At(i).Type()) {
+						copies++
+						r.Check(R5, "func "+fnName(fn)+" / returns the transport by value", p.pos(fn.Pos()), false, "a transport returned by value is a copy of the one its decoder was bound to")
+					}
+				}
+			}
+			eachInstr(fn, func(in ssa.Instruction) {
+				if v, ok := in.(ssa.Value); ok && isT(v.Type()) {
+					if _, isCall := in.(*ssa.Call); isCall {
+						return // reported at the callee
+					}
+					copies++
+					r.Check(R5, "func "+fnName(fn)+" / transport value "+describe(v), p.instrPos(in), false, "the transport is handled as a value here (copied)")
+				}
+			})
+		}
+	}
+	r.Check(R5, "type tcpTransport / only ever handled through pointers", "-", copies == 0, fmt.Sprintf("%d by-value use(s)", copies))
+
 	// ---- R1
 	nDec := 0
 	for _, fn := range p.LimeFuncs() {
